@@ -1364,6 +1364,109 @@ def m_hmap_insert(ex, m, argv, guard, st, callee):
     return guard, (none if old is None else option(ex, zsimp(any_hit), old))
 
 
+# ---- std::path::{Path, PathBuf} as a sequence of at most PATH_SLOTS normalised components (8-bit tokens) plus an "absolute"
+# flag; `.`/`..`, prefixes and trailing separators are outside the model (callers assume normalised paths)
+PATH_SLOTS = 3
+
+
+def new_path(comps, ln, absolute):
+    return Model('path', c=Agg(list(comps), 'pathcomps'), len=ln, abs=absolute)
+
+
+def _path_of(ex, st, a):
+    v = deref_any(ex, st, a)
+    if not (isinstance(v, Model) and v.kind == 'path'):
+        raise Unsupported("not a modelled path: %r" % (v,))
+    return v
+
+
+def path_eq(a, b):
+    cs = [a.f['len'] == b.f['len'], a.f['abs'] == b.f['abs']]
+    for i, (x, y) in enumerate(zip(a.f['c'].fields, b.f['c'].fields)):
+        cs.append(z3.Implies(z3.ULT(bv(i, 64), a.f['len']), x == y))
+    return zand(*cs)
+
+
+def m_path_identity(ex, m, argv, guard, st, callee):
+    return guard, ValRef(_path_of(ex, st, argv[0]))
+
+
+def m_path_eq(ex, m, argv, guard, st, callee):
+    r = path_eq(_path_of(ex, st, argv[0]), _path_of(ex, st, argv[1]))
+    return guard, (znot(r) if m.group(1) == 'ne' else r)
+
+
+def m_path_parent(ex, m, argv, guard, st, callee):
+    p = _path_of(ex, st, argv[0])
+    has = p.f['len'] != bv(0, 64)
+    parent = new_path(p.f['c'].fields, zsimp(p.f['len'] - bv(1, 64)), p.f['abs'])
+    return guard, option(ex, zsimp(has), ValRef(parent))
+
+
+def m_path_join(ex, m, argv, guard, st, callee):
+    a, b = _path_of(ex, st, argv[0]), _path_of(ex, st, argv[1])
+    n = len(a.f['c'].fields)
+    total = a.f['len'] + b.f['len']
+    ex.oblige('bound', zand(guard, znot(b.f['abs']), z3.UGT(total, bv(n, 64))), 'joined path longer than the %d-component model' % n)
+    comps = []
+    for i in range(n):
+        # component i of a ++ b
+        v = a.f['c'].fields[i]
+        for j in range(n):
+            v = zite(zand(znot(z3.ULT(bv(i, 64), a.f['len'])), a.f['len'] + bv(j, 64) == bv(i, 64)), b.f['c'].fields[j], v)
+        comps.append(zite(b.f['abs'], b.f['c'].fields[i], v))
+    return guard, new_path(comps, zsimp(zite(b.f['abs'], b.f['len'], total)), zsimp(zor(b.f['abs'], a.f['abs'])))
+
+
+def m_path_ends_with(ex, m, argv, guard, st, callee):
+    a, b = _path_of(ex, st, argv[0]), _path_of(ex, st, argv[1])
+    n = len(a.f['c'].fields)
+    suffix = [z3.ULE(b.f['len'], a.f['len'])]
+    off = a.f['len'] - b.f['len']
+    for j in range(n):
+        pick = a.f['c'].fields[0]
+        for i in range(n):
+            pick = zite(off + bv(j, 64) == bv(i, 64), a.f['c'].fields[i], pick)
+        suffix.append(z3.Implies(z3.ULT(bv(j, 64), b.f['len']), pick == b.f['c'].fields[j]))
+    return guard, zite(b.f['abs'], path_eq(a, b), zand(*suffix))
+
+
+def m_iter_position(ex, m, argv, guard, st, callee):
+    """slice::Iter::position(pure predicate): index of the first element in range that satisfies it."""
+    it = _iter_get(ex, st, argv[0])
+    s = it.f['slice']
+    cl = argv[1]
+    target = find_closure(ex, cl.tag)
+    ex.fresh_n += 1
+    cell = (0, 'closure%d' % ex.fresh_n)
+    st.mem[cell] = cl
+    idx, found = bv(0, 64), z3.BoolVal(False)
+    for j in range(len(s.backing) - 1, -1, -1):
+        elem = s.backing[j]
+        active = zsimp(zand(z3.ULE(s.start + it.f['pos'], bv(j, 64)), z3.ULT(bv(j, 64), s.start + s.length)))
+        if z3.is_false(active) or elem is None:
+            continue
+        item = ValRef(elem) if it.f['by_ref'] else elem
+        _g, b = ex.call_function(target.fn, [PlaceRef(cell), item], zand(guard, active), st.copy())
+        hit = zand(active, b)
+        idx = zite(hit, bv(j, 64) - s.start - it.f['pos'], idx)
+        found = zor(hit, found)
+    del st.mem[cell]
+    return guard, option(ex, zsimp(found), zsimp(idx))
+
+
+def m_option_or_else(ex, m, argv, guard, st, callee):
+    o, f = argv
+    some = zsimp(option_is_some(o))
+    if z3.is_true(some):
+        return guard, o
+    st2 = st.copy()
+    g2, v = call_closure(ex, f, [], zand(guard, znot(some)), st2)
+    if 'Some' not in o.variants or z3.is_false(some):
+        return g2, v
+    return zor(zand(guard, some), g2), ite_val(some, o, v)
+
+
 def m_result_is(ex, m, argv, guard, st, callee):
     r = deref_any(ex, st, argv[0])
     ok = r.discr == bv(0, 64)
@@ -1871,6 +1974,14 @@ _EX = [None]
 def register(ex):
     _EX[0] = ex
     A = ex.add_model
+    A(r'^(?:std::path::)?Path::new::<str>$', m_path_identity, 'Path::new (path model)')
+    A(r'^<&?(?:std::path::)?(?:PathBuf|Path) as (?:std::cmp::)?PartialEq(?:<&?(?:std::path::)?(?:PathBuf|Path)>)?>::(eq|ne)$', m_path_eq, 'Path/PathBuf equality (path model: components)')
+    A(r'^(?:std::path::)?Path::parent$', m_path_parent, 'Path::parent (path model)')
+    A(r'^(?:std::path::)?Path::join::<&(?:std::path::)?Path>$', m_path_join, 'Path::join (path model)')
+    A(r'^(?:std::path::)?Path::ends_with::<.*>$', m_path_ends_with, 'Path::ends_with (path model: component suffix)')
+    A(r'^<(?:std::path::)?PathBuf as (?:std::ops::)?Deref>::deref$', m_path_identity, 'PathBuf::deref (path model)')
+    A(r'^<(?:std::slice::)?Iter<.*> as (?:std::iter::)?Iterator>::position::<\{closure@.*$', m_iter_position, 'slice::Iter::position with a pure predicate')
+    A(r'^(?:std::option::)?Option::<.*>::or_else::<.*$', m_option_or_else, 'Option::or_else')
     A(r'^(?:std::collections::)?HashMap::<u32, \(.*\)>::new$', m_hmap_new, 'HashMap<u32, V>::new (fixed slots)')
     A(r'^<(?:std::collections::)?HashMap<u32, \(.*\)> as (?:std::default::)?Default>::default$', m_hmap_new, 'HashMap<u32, V>::default (fixed slots)')
     A(r'^(?:std::collections::)?HashMap::<u32, \(.*\)>::(get|contains_key)::<u32>$', m_hmap_get, 'HashMap<u32, V>::get/contains_key (fixed slots)')
